@@ -394,7 +394,7 @@ pub fn pools() -> Pools {
         // neighbourhoods: a.b / a.b.0 / a.b.c / a.(b±1) / a / decorated
         versions: vec!["3.8", "3.8.0", "3.8.5", "3.9", "3.7", "3", "3.0", "3.10", "4", "2.7", "3.9.0", "3.8rc1", "3.9.post2", "3.8.dev0", "1!3.8", "3.8.5.0", "3.0.0", "0", "3.8.0.1"],
         strings: vec!["linux", "linux2", "lin", "win32", "", "a", "b", "ab", "posix", "nt", "a'b", "x\"y", "é", "Linux"],
-        extras: vec!["dev", "test", "Foo_Bar", "foo-bar", "a", "b", "not valid", "x.y", ""],
+        extras: vec!["dev", "test", "Foo_Bar", "foo-bar", "a", "b", "not valid", "x.y", "", "py39", "9x"],
     }
 }
 
